@@ -131,3 +131,10 @@ def coq_term(case, obs):
 
 def coq_model_expr(case):
     return 'mux_model %s %s' % (muxlib.coq_pipe(case['ast']), muxlib.coq_trace(case['trace']))
+
+
+CLAIM = {
+    'text': "Theorems (Coq, no axioms beyond kernel primitives for floats): master refinement for EVERY pipeline of the grammar (all simple stateful operators, group_by, roll both code paths, split, time_split, tee_map with 3 joins, nested to any depth): the slot-level machine (state in arrays addressed by key[0], ring slots, global group counter, shared tee cells) refines the key-lift of an index-free per-key machine on every well-formed trace; corollaries: outputs during a key's events depend only on that key's events (other keys, interleaving, slot sharing irrelevant), and from a Create on not on earlier lifetimes. Tied to the code by evaluating the slot-level model in Coq on random typed pipelines x keyed traces with sparse/descending/reused slots; oracle: in-context lifetime == standalone run of the same pipeline on the real code.",
+    'note': 'Trusted: Coq kernel+VM; hand-written slot-level model (tied by correspondence); MemoryStore abstracted to per-slot cells (C14); errors_handled fragment; RxPY synchronous delivery, dict order, deepcopy freshness modelled not verified.',
+    'technique': 'Coq proof (forward-simulation refinement of a slot-level model by per-key local machines, list-level induction) + vm_compute correspondence against /repo + model-free oracle',
+}
